@@ -166,14 +166,34 @@ pub fn check(tier: &str) -> i32 {
     // (dataset name, instants, flush?)
     // days around New Year (ISO week-year differs from the calendar year), a leap day and year ends
     let newyear: Vec<i64> = vec![1_735_516_800, 1_735_430_400, 1_735_689_600, 1_672_574_400, 1_609_459_200, 1_609_372_800, 1_709_164_800, 1_704_067_199, 1_704_067_200];
-    let sets: Vec<(&str, Vec<i64>, bool)> = vec![("wide/memory", wide.clone(), false), ("narrow/memory", narrow.clone(), false), ("narrow/flushed", narrow.clone(), true), ("newyear/memory", newyear.clone(), false)];
+    // two instants 40 days apart at the same time of day, stored alternately (zones of 8 rows that span
+    // more than a month), then rows of a third instant in the same clock hour as the first (narrow zones
+    // of the same segment): an index that treats wide and narrow zones differently has to agree on `=`
+    let months: Vec<i64> = vec![1_700_000_000, 1_700_000_000 + 40 * 86400, 1_700_000_100];
+    let sets: Vec<(&str, Vec<i64>, bool)> = vec![("wide/memory", wide.clone(), false), ("narrow/memory", narrow.clone(), false), ("narrow/flushed", narrow.clone(), true), ("newyear/memory", newyear.clone(), false), ("months/flushed", months.clone(), true)];
     let ops6 = ["=", "!=", "<", "<=", ">", ">="];
     let grans = ["HOUR", "DAY", "WEEK", "MONTH", "YEAR"];
     let work: Vec<(usize, usize)> = (0..cfgs.len()).flat_map(|c| (0..sets.len()).map(move |s| (c, s))).collect();
     let res = par_map(&work, threads(), |wi, (ci, si)| -> Result<(Vec<Failing>, usize, usize), String> {
         let (tz, ws) = &cfgs[*ci];
         let (sname, instants, flush) = &sets[*si];
-        let rows = rows_for(instants);
+        let mut rows = rows_for(instants);
+        if sname.starts_with("months") {
+            // alternate the rows of the first two instants, keep the third instant's rows behind them
+            let a: Vec<RowSpec> = rows.iter().filter(|r| r.t == instants[0]).cloned().collect();
+            let b: Vec<RowSpec> = rows.iter().filter(|r| r.t == instants[1]).cloned().collect();
+            let c: Vec<RowSpec> = rows.iter().filter(|r| r.t == instants[2]).cloned().collect();
+            rows = Vec::new();
+            for i in 0..a.len().max(b.len()) {
+                if let Some(x) = a.get(i) {
+                    rows.push(x.clone());
+                }
+                if let Some(x) = b.get(i) {
+                    rows.push(x.clone());
+                }
+            }
+            rows.extend(c);
+        }
         let mut ops = vec![Op::Cmd { text: "DEFINE z FIELDS { id: \"int\", d: \"datetime\", dd: \"date\" }".into() }];
         let store_base = ops.len();
         for r in &rows {
@@ -185,7 +205,7 @@ pub fn check(tier: &str) -> i32 {
             ops.push(Op::FlushSeq);
         }
         // probes
-        let probe_ts: Vec<i64> = if *flush || sname.starts_with("narrow") { vec![1_700_000_000, 1_700_003_600, 1_700_006_400] } else { vec![0, 3600, 1_000_000_000, 1_700_000_000] };
+        let probe_ts: Vec<i64> = if sname.starts_with("months") { instants.clone() } else if *flush || sname.starts_with("narrow") { vec![1_700_000_000, 1_700_003_600, 1_700_006_400] } else { vec![0, 3600, 1_000_000_000, 1_700_000_000] };
         let mut qs: Vec<(String, String)> = vec![("all".into(), "QUERY z".into())];
         for pt in &probe_ts {
             for (sp, val) in spellings(*pt) {
@@ -386,7 +406,7 @@ pub fn check(tier: &str) -> i32 {
         coverage: json!({
             "evaluations": judged,
             "distinct_nontrivial": nontrivial,
-            "rule": "instants {-86401, -1, 0, 1, 59, 3599, 3600, 86399, 86400, 999999999, 1e9, 99999999999, 1.7e9, 4e9} (memory) and a cluster around hour / day / week / month boundaries of 2023-11 plus a summer instant (memory and flushed), and days around New Year of several years, a leap day and year ends (memory) x spellings {int s/ms/us/ns, the same as strings, float seconds, RFC 3339 with Z, +01:00, -05:30, +14:00, fractional seconds .250/.500/.750/.999999, float seconds + 0.7, milliseconds + 700} on four sites: (1) STORE payload of a datetime field (and a date field) - the value read back must be the instant's epoch second; (2) SINCE \"<spelling>\" USING d; (3) WHERE d <op> <literal> for all six operators, and bare-date literals against the `date` field dd on the WHERE and SINCE paths with epoch-second, millisecond, RFC 3339 and fractional RFC 3339 literals; (4) COUNT PER {HOUR..YEAR} USING d; sites 2-4 are judged against the values the system itself returns for the rows; configurations timezone x week start; distinct_nontrivial = STORE cases + probes whose expected answer is a proper non-empty subset + PER probes",
+            "rule": "instants {-86401, -1, 0, 1, 59, 3599, 3600, 86399, 86400, 999999999, 1e9, 99999999999, 1.7e9, 4e9} (memory) and a cluster around hour / day / week / month boundaries of 2023-11 plus a summer instant (memory and flushed), and days around New Year of several years, a leap day and year ends (memory), and two instants 40 days apart stored alternately in front of rows of a third instant in the same clock hour (flushed: zones spanning more than a month next to narrow ones) x spellings {int s/ms/us/ns, the same as strings, float seconds, RFC 3339 with Z, +01:00, -05:30, +14:00, fractional seconds .250/.500/.750/.999999, float seconds + 0.7, milliseconds + 700} on four sites: (1) STORE payload of a datetime field (and a date field) - the value read back must be the instant's epoch second; (2) SINCE \"<spelling>\" USING d; (3) WHERE d <op> <literal> for all six operators, and bare-date literals against the `date` field dd on the WHERE and SINCE paths with epoch-second, millisecond, RFC 3339 and fractional RFC 3339 literals; (4) COUNT PER {HOUR..YEAR} USING d; sites 2-4 are judged against the values the system itself returns for the rows; configurations timezone x week start; distinct_nontrivial = STORE cases + probes whose expected answer is a proper non-empty subset + PER probes",
             "samples": rows_for(&[1_700_000_000]).iter().map(|r| json!({"instant": r.t, "spelling": r.spelling, "sent": r.value})).collect::<Vec<_>>(),
             "configurations": cfgs,
             "failing_cases": failing.len(),
